@@ -1,4 +1,5 @@
 import MgpuProofs.C15Inv
+import MgpuProofs.C15Live
 /-! # C15 — the reorder buffer returns responses in request order, exactly once
 
 All statements are about `C15.run c ops`: the state of the tick-exact model of
@@ -83,10 +84,16 @@ theorem response_carries_id_and_payload (c : Cfg) (ops : List Op) :
 example : (run demoCfg demoOps).delivered =
     [⟨0, 2, .data [9, 9, 9, 9]⟩, ⟨1, 2, .done⟩, ⟨4, 2, .data [6]⟩] := by decide
 
+example : (run demoCfg demoOps).accepted.length = 5 ∧
+    ((run demoCfg demoOps).delivered.map (·.rspTo)).length = 3 := by decide
+
 /-- what is still in the Top port's outgoing buffer is the tail of the delivered log: the log
     is exactly the traffic that left through the Top port -/
 theorem delivered_is_top_port_traffic (c : Cfg) (ops : List Op) :
     ∃ drained, (run c ops).delivered = drained ++ (run c ops).topOut := (rob_inv c ops).topOutDel
+
+example : (run demoCfg (demoOps.take 11)).topOut.length = 1 ∧
+    (run demoCfg (demoOps.take 11)).delivered.length = 1 := by decide
 
 /-- **Capacity and lookup table.** Never more than `bufferSize` transactions; the table's keys
     are exactly the bottom ids of the pending transactions, without repetition, all older than
@@ -124,6 +131,9 @@ theorem forwarded_are_duplicates (c : Cfg) (ops : List Op) :
     (∀ b ∈ s.botOut, ∃ r, (r, b) ∈ s.fwd) := by
   intro s
   exact ⟨(rob_inv c ops).fwdDup, rfl, (rob_inv c ops).botOutFwd⟩
+
+example : (run demoCfg (demoOps.take 4)).fwd.map (·.2.id) = [0, 1] ∧
+    (run demoCfg (demoOps.take 4)).botOut.length = 2 := by decide
 
 /-- **Flush.** Whatever was discarded at some point is never answered in any continuation, and
     a late lower-level response for a discarded transaction never finds a table entry again
@@ -176,5 +186,108 @@ theorem flush_empties (c : Cfg) (s : St) (m : Ctl) (rest : List Ctl)
 
 example : (processCtl demoCfg (run demoCfg (demoOps.take 21))).1.txs = [] ∧
     (run demoCfg (demoOps.take 21)).txs.length = 2 := by decide
+
+/-- **No lost wake-up.** A tick that reports no progress (after which Akita stops ticking the
+    component) changes nothing but the id counter, and every piece of pending work waits for an
+    event that does wake the component under Akita's rules: a control message waits only for the
+    Control port's outgoing buffer to leave the *full* state; when not flushing, the Bottom port's
+    incoming buffer is *empty* (so the next response is a delivery into an empty buffer), the head
+    transaction has no response yet or the Top port's outgoing buffer is full, and the head request
+    of the Top port waits for a retirement or for the Bottom port's outgoing buffer to leave the
+    full state; when flushing, only a restart message (delivered into the empty control buffer, or
+    waiting for the full control outgoing buffer) can be pending. -/
+theorem quiescent_is_waiting (c : Cfg) (s : St) (hw : 1 ≤ c.width)
+    (hq : (tick c s).2 = false) (hf : (tick c s).1.fault = none) :
+    forget (tick c s).1 = forget s ∧ WaitCtl c s ∧
+    (s.flushing = false → s.botIn = [] ∧ WaitBottomUp c s ∧ WaitTopDown c s) := by
+  revert hq hf
+  unfold tick
+  split
+  · rename_i h; intro _ hf; rw [hf] at h; simp at h
+  · simp only
+    split
+    · rename_i h; intro _ hf; simp only at hf; rw [hf] at h; simp at h
+    · rename_i hnf
+      have hnf' : (processCtl c s).1.fault = none := by simpa using hnf
+      split
+      · rename_i hfl
+        intro hq _
+        obtain ⟨e, hc⟩ := processCtl_quiet c s hq hnf'
+        rw [e] at hfl ⊢
+        exact ⟨rfl, hc, fun h => by simp [h] at hfl⟩
+      · intro hq hf
+        simp only [Bool.or_eq_false_iff] at hq
+        obtain ⟨e, hc⟩ := processCtl_quiet c s hq.1 hnf'
+        rw [e] at hq hf ⊢
+        have hq2 := hq.2
+        unfold runPipeline at hq2 hf ⊢
+        obtain ⟨a1, a2, a3, a4⟩ := iterP_quiet (topDown_fault_back c) (topDown_quiet c) _ _ hq2 hf
+        obtain ⟨b1, b2, b3, b4⟩ := iterP_quiet parseBottom_fault_back parseBottom_quiet _ _ a1 a2
+        obtain ⟨_, _, d3, d4⟩ := iterP_quiet (bottomUp_fault_back c) (bottomUp_quiet c) _ _ b1 b2
+        have eB := b3.trans d3
+        refine ⟨(a3.trans eB), hc, fun _ => ⟨?_, d4 hw, ?_⟩⟩
+        · have := b4 hw
+          have e1 := congrArg St.botIn d3
+          simp only [forget] at e1
+          rw [← e1]; exact this
+        · have e1 := congrArg St.topIn eB
+          have e2 := congrArg St.txs eB
+          have e3 := congrArg St.botOut eB
+          simp only [forget] at e1 e2 e3
+          have := a4 hw
+          unfold WaitTopDown at this ⊢
+          rw [← e1, ← e2, ← e3]; exact this
+
+example : (tick demoCfg (run demoCfg (demoOps.take 16))).2 = false ∧
+    (run demoCfg (demoOps.take 16)).txs.length = 2 := by decide
+
+/-- **Progress of retirement** (the liveness half of "one response per request", together with
+    `quiescent_is_waiting`): when the ROB is not flushing, no control message is waiting, the head
+    transaction has its response and the Top port has room, the very next tick sends exactly
+    that response (requester's id, requester's port, stored payload) before anything else. -/
+theorem tick_retires_head (c : Cfg) (s : St) (t : Tx) (rest : List Tx) (p : Rsp)
+    (hw : 1 ≤ c.width) (hnf : s.fault = none) (hfl : s.flushing = false) (hctl : s.ctlIn = [])
+    (htx : s.txs = t :: rest) (hrsp : t.rsp = some p) (hsrc : t.req.src ≠ 0)
+    (hroom : s.topOut.length < c.topOutCap) :
+    ∃ more, (tick c s).1.delivered = s.delivered ++ ⟨t.req.id, t.req.src, p⟩ :: more := by
+  obtain ⟨n, hn⟩ : ∃ n, c.width = n + 1 := ⟨c.width - 1, by omega⟩
+  have hp : processCtl c s = (s, false) := by unfold processCtl; rw [hctl]
+  have hb : (bottomUp c s).1.delivered = s.delivered ++ [⟨t.req.id, t.req.src, p⟩] := by
+    unfold bottomUp
+    simp [hnf, htx, hrsp, hsrc, hroom]
+  have ht : (tick c s).1 = (runPipeline c s).1 := by
+    unfold tick
+    simp [hnf, hp, hfl]
+  obtain ⟨more, hm⟩ := runPipeline_from c s n hn
+  exact ⟨more, by rw [ht, hm, hb, List.append_assoc]; rfl⟩
+
+example : (run demoCfg (demoOps.take 31)).txs.map (·.rsp) = [some (.data [6])] ∧
+    (tick demoCfg (run demoCfg (demoOps.take 31))).1.delivered.map (·.rspTo) = [0, 1, 4] := by decide
+
+/-- **Progress of acceptance.** With room in the buffer and in the Bottom port, `topDown`
+    accepts the head request of the Top port: it is logged as accepted, its duplicate (same
+    address/size/data/mask/PID, fresh id) is what enters the Bottom port, and a transaction
+    without response is appended — i.e. the waiting conditions of `quiescent_is_waiting` are the
+    only reasons not to accept. -/
+theorem topDown_accepts (c : Cfg) (s : St) (r : Req) (rest : List Req)
+    (hnf : s.fault = none) (hbu : c.bottomUnit = true) (htop : s.topIn = r :: rest)
+    (hcap : s.txs.length < c.cap) (hroom : s.botOut.length < c.botOutCap) :
+    let s' := (topDown c s).1
+    (topDown c s).2 = true ∧ s'.accepted = s.accepted ++ [r.id] ∧ s'.topIn = rest ∧
+    s'.botOut = s.botOut ++ [dupReq s.nextBot r] ∧ s'.txs = s.txs ++ [⟨r, s.nextBot, none⟩] ∧
+    s'.table = s.table ++ [s.nextBot] := by
+  have h1 : ¬ (s.txs.length ≥ c.cap) := by omega
+  have h2 : ¬ (s.botOut.length ≥ c.botOutCap) := by omega
+  intro s'
+  have e : s' = (topDown c s).1 := rfl
+  unfold topDown at e ⊢
+  simp [hnf, htop, h1, h2, hbu] at e ⊢
+  rw [e]
+  simp [St.accepted]
+
+example : (run demoCfg (demoOps.take 2)).topIn.length = 2 ∧ (run demoCfg (demoOps.take 2)).fault = none ∧
+    (run demoCfg (demoOps.take 2)).txs.length < demoCfg.cap ∧
+    (run demoCfg (demoOps.take 2)).botOut.length < demoCfg.botOutCap ∧
+    (topDown demoCfg (run demoCfg (demoOps.take 2))).1.accepted = [0] := by decide
 
 end C15
